@@ -584,6 +584,11 @@ def run(prog, ctx):
     ctx.rule("R14.7", "two-branch in-place switches install the same values in both branches (modify vs copy_with keyword sets agree)")
     ctx.rule("R14.6", "no dict is resized (del/pop/update/new key) inside a loop that iterates it")
     ctx.fact("effect on a fresh object (constructor result, copy(), copy_with(), dict()/list display, .copy() of a dict) is not an operand write")
+    ctx.rule("R14.8", "bounded complement by abstract evaluation: every operation of the battery leaves the structural snapshot of each "
+             "operand unchanged and shares no block / sign table with it; asked to work in place it returns the operand itself")
+    from rules.sem_effects import check_operand_effects
+
+    check_operand_effects(prog, ctx)
     check_dynamic(prog, ctx)
     check_inplace_operators(prog, ctx)
     an = get_analyzer(prog)
